@@ -417,7 +417,19 @@ impl Scenario for C17Bridge {
                     cx.probe("undecodable_line_at_bridge");
                 }
                 _ => {
-                    let n = cx.draw(16) as usize;
+                    if cx.chance(1, 8) {
+                        // frame-shaped, but made of non-ASCII decimal digits (U+0660..)
+                        cx.probe("line_of_non_ascii_digits");
+                        let mut g: Vec<u8> = vec![b':'];
+                        for _ in 0..(10 + 2 * cx.draw(4) as usize) {
+                            g.extend_from_slice(&[0xD9, 0xA0 + cx.draw(10) as u8]);
+                        }
+                        g.extend_from_slice(b"\r\n");
+                        lines.push((g, "non-ascii-digits", Some(None)));
+                        cx.probe("undecodable_line_at_bridge");
+                        continue;
+                    }
+                    let n = if cx.chance(1, 16) { 900 + cx.draw(8000) as usize } else { cx.draw(16) as usize };
                     let mut g = cx.bytes(n);
                     for b in g.iter_mut() {
                         if *b == b'\n' {
